@@ -45,16 +45,18 @@ SHAPES = [
 def _parts(code):
     """what a hardening codemod must leave alone: nested wrap(...) calls, star / double-star arguments, dict spreads"""
     tree = ast.parse(code)
-    out = {"wrap": [], "star": 0, "dstar": 0, "dict-spread": 0}
+    out = {"wrap": [], "star": [], "dstar": [], "dict-spread": 0}
     for n in ast.walk(tree):
         if isinstance(n, ast.Call):
             if isinstance(n.func, ast.Name) and n.func.id == "wrap":
                 out["wrap"].append(ast.unparse(n))
-            out["star"] += sum(isinstance(a, ast.Starred) for a in n.args)
-            out["dstar"] += sum(k.arg is None for k in n.keywords)
+            out["star"] += [ast.unparse(a.value) for a in n.args if isinstance(a, ast.Starred)]
+            out["dstar"] += [ast.unparse(k.value) for k in n.keywords if k.arg is None]
         elif isinstance(n, ast.Dict):
             out["dict-spread"] += sum(k is None for k in n.keys)
     out["wrap"].sort()
+    out["star"].sort()
+    out["dstar"].sort()
     return out
 
 
@@ -140,5 +142,104 @@ def run_shapes(tier="quick", seed=0):
             "clause": "parts(before) == parts(after): nested wrap(...) calls textually identical, same number of *args / **kwargs / dict spreads"}
 
 
+def _cli(root, out, args):
+    from codemodder.codemodder import run
+    rootlog = logging.getLogger()
+    for h in list(rootlog.handlers):
+        rootlog.removeHandler(h)
+    with contextlib.redirect_stdout(io.StringIO()), contextlib.redirect_stderr(io.StringIO()):
+        return run([root, "--output", out] + args)
+
+
+def run_flask(tier="quick", seed=0):
+    """BOUNDED: two flask hardening codemods through the real CLI.
+    replace-flask-send-file turns positional arguments into keywords: every argument expression must reach the parameter it was bound to
+    (reference: the signature of the installed flask.send_file); secure-flask-session-config may only change the value of the insecure
+    SESSION_COOKIE_* keywords: every other argument of app.config.update(...), `**spread`s included, keeps its text."""
+    import inspect
+    base = tempfile.mkdtemp(prefix="pyvc_c16f_")
+    evals, bad, fired = 0, None, 0
+    cwd = os.getcwd()
+    try:
+        os.chdir(base)
+        try:
+            import flask
+            params = list(inspect.signature(flask.send_file).parameters)
+        except Exception:  # flask absent: the reference is the documented flask 2.x/3.x signature
+            params = ["path_or_file", "mimetype", "as_attachment", "download_name", "conditional", "etag", "last_modified", "max_age"]
+        names = ["mt", "att", "dn", "cond", "tag", "lm", "age"]
+        for n in range(1, len(names) + 1):
+            for tail in ("", ", max_age=other(1)" if n < len(names) else ""):
+                if n > 1 and tail == "" and tier != "thorough" and n not in (3, 5, 6, 7):
+                    continue
+                args = ", ".join(names[:n])
+                src = ("import flask\nfrom pathlib import Path\n\n\ndef other(*a, **k):\n    return a\n\n\n"
+                       f"def view(name, {', '.join(names)}):\n    return flask.send_file(f'static/{{name}}.txt', {args}{tail})\n")
+                root = os.path.join(base, f"sf{evals}")
+                os.makedirs(root)
+                open(os.path.join(root, "code.py"), "w").write(src)
+                rc = _cli(root, os.path.join(base, "o.codetf"), ["--codemod-include", "pixee:python/replace-flask-send-file"])
+                after = open(os.path.join(root, "code.py")).read()
+                evals += 1
+                fired += after != src
+                want = {params[1 + i]: names[i] for i in range(n)}
+                if tail:
+                    want["max_age"] = "other(1)"
+                w = None
+                if rc != 0:
+                    w = {"clause": "the run completes", "status": rc}
+                elif after != src:
+                    try:
+                        call = next(c for c in ast.walk(ast.parse(after)) if isinstance(c, ast.Call) and ast.unparse(c.func).endswith("send_from_directory"))
+                        got = {k.arg: ast.unparse(k.value) for k in call.keywords}
+                        for i, a in enumerate(call.args[2:]):  # send_from_directory(directory, path, **kwargs): anything positional after these is lost
+                            got[f"<positional {i + 2}>"] = ast.unparse(a)
+                        if got != want:
+                            w = {"clause": "every argument of flask.send_file reaches the parameter it was bound to", "bound before": want, "bound after": got}
+                    except (SyntaxError, StopIteration) as e:
+                        w = {"clause": "the rewritten file parses and still calls send_from_directory", "observed": repr(e), "after": after}
+                if w is not None and bad is None:
+                    bad = dict(w, codemod="pixee:python/replace-flask-send-file", line=src.splitlines()[-1].strip())
+        calls = ["app.config.update(SESSION_COOKIE_SECURE=False, **more)", "app.config.update(**more, SESSION_COOKIE_HTTPONLY=False)",
+                 "app.config.update(SESSION_COOKIE_SECURE=False, DEBUG=other(shell=True), **more)",
+                 "app.config.update(more, SESSION_COOKIE_SAMESITE=None, **opts)", "app.config.update(SESSION_COOKIE_SECURE=True, TESTING=False, **more)"]
+        for k, line in enumerate(calls):
+            src = ("from flask import Flask\n\n\ndef other(*a, **k):\n    return a\n\n\napp = Flask(__name__)\nmore = {}\nopts = {}\n" + line + "\n")
+            root = os.path.join(base, f"cfg{k}")
+            os.makedirs(root)
+            open(os.path.join(root, "code.py"), "w").write(src)
+            rc = _cli(root, os.path.join(base, "o.codetf"), ["--codemod-include", "pixee:python/secure-flask-session-configuration"])
+            after = open(os.path.join(root, "code.py")).read()
+            evals += 1
+            fired += after != src
+            w = None
+            if rc != 0:
+                w = {"clause": "the run completes", "status": rc}
+            else:
+                try:
+                    def shape(code):
+                        c = next(c for c in ast.walk(ast.parse(code)) if isinstance(c, ast.Call) and ast.unparse(c.func) == "app.config.update")
+                        return ([ast.unparse(a) for a in c.args],
+                                [(kw.arg, None if (kw.arg or "").startswith("SESSION_COOKIE_") else ast.unparse(kw.value)) for kw in c.keywords])
+                    if shape(src) != shape(after):
+                        w = {"clause": "only the values of SESSION_COOKIE_* keywords change", "before": shape(src), "after": shape(after)}
+                except (SyntaxError, StopIteration) as e:
+                    w = {"clause": "the rewritten file parses", "observed": repr(e), "after": after}
+            if w is not None and bad is None:
+                bad = dict(w, codemod="pixee:python/secure-flask-session-configuration", line=line)
+    finally:
+        os.chdir(cwd)
+        shutil.rmtree(base, ignore_errors=True)
+    if bad is None and fired < evals // 2:
+        bad = {"clause": "vacuity guard: the codemods fire on the generated programs", "fired": fired, "programs": evals}
+    return {"kind": "bounded", "id": "bounded:flask hardening codemods keep every argument bound to its parameter", "status": "refuted" if bad else "discharged",
+            "bound": f"{evals} generated programs (send_file with 1..7 positional arguments; config.update with spreads) through the real CLI; "
+                     "reference binding: signature of the installed flask.send_file",
+            "evaluations": evals, "witness": bad, "func": "core_codemods.replace_flask_send_file / secure_flask_session_config",
+            "reason": "" if not bad else f"clause '{bad.get('clause')}' fails for {bad.get('codemod')}",
+            "replay": {"reproduced": True, "detail": json.dumps(bad, default=str)[:2000]} if bad else None,
+            "clause": "bind(send_file, args before) == keywords after; arguments of config.update other than SESSION_COOKIE_* values are textually unchanged"}
+
+
 def extra_checks(tier="quick", seed=0):
-    return [run_shapes(tier, seed)]
+    return [run_shapes(tier, seed), run_flask(tier, seed)]
